@@ -296,7 +296,20 @@ def convertCdsFrom (c : Ctx) : List GeneView → Nat → List Orf
 /-- `convert_cds_features(record, region.cds_children, …)` -/
 def convertCds (c : Ctx) (genes : List GeneView) : List Orf := convertCdsFrom c genes 0
 
-/-! ### Region.get_unique_protoclusters: the cross-origin sort key -/
+/-! ### Region.get_unique_protoclusters -/
+
+/-- a `Protocluster` object: its Python identity (`Feature` defines neither `__eq__` nor
+    `__hash__`, so sets hold objects by identity) and what the layout reads from it -/
+structure PObj where
+  id : Nat
+  feat : Feat
+deriving DecidableEq, Repr, Inhabited
+
+/-- a `CandidateCluster` with its `protoclusters` tuple -/
+structure Cand where
+  feat : Feat
+  members : List PObj
+deriving Repr, Inhabited
 
 /-- `reduction(collection)` with `record_length = region.location.parts[0].end`;
     `start < record_length / 2` is compared exactly as `2 * start < record_length` -/
@@ -306,13 +319,49 @@ def reductionKey (c : Ctx) (p : Feat) : Int × Int × String :=
     (p.start + recordLength, -p.loc.len, p.product)
   else (p.start, -p.loc.len, p.product)
 
+/-- tuple comparison `a <= b` -/
 def keyLe (a b : Int × Int × String) : Bool :=
   decide (a.1 < b.1) || (a.1 == b.1 && (decide (a.2.1 < b.2.1) || (a.2.1 == b.2.1 && decide (a.2.2 ≤ b.2.2))))
 
-/-- the delivered order is non-decreasing in the key -/
+/-- `clusters.update(candidate_cluster.protoclusters)` for one object: a set keeps it once -/
+def setAdd (acc : List PObj) (p : PObj) : List PObj :=
+  if acc.any (·.id == p.id) then acc else acc ++ [p]
+
+/-- `clusters = set(); for candidate in candidates: clusters.update(candidate.protoclusters)`.
+    The list stands for the set in *some* iteration order (first insertion here; CPython's is by
+    hash — only the relative order of protoclusters with equal sort keys depends on it). -/
+def gatherProtoclusters (cands : List Cand) : List PObj :=
+  (cands.flatMap (·.members)).foldl setAdd []
+
+/-- one step of a stable sort by the key: `p` goes before the first element with a larger or
+    equal key (it came earlier in the input) -/
+def insertByKey (c : Ctx) (p : PObj) : List PObj → List PObj
+  | [] => [p]
+  | q :: qs =>
+    if keyLe (reductionKey c p.feat) (reductionKey c q.feat) then p :: q :: qs
+    else q :: insertByKey c p qs
+
+/-- `sorted(clusters, key=reduction)` (stable) -/
+def sortByKey (c : Ctx) (l : List PObj) : List PObj := l.foldr (insertByKey c) []
+
+/-- `region.get_unique_protoclusters()` -/
+def uniqueProtoclusters (c : Ctx) (cands : List Cand) : List PObj :=
+  sortByKey c (gatherProtoclusters cands)
+
+/-- the list is non-decreasing in the key -/
 def sortedByKey (c : Ctx) : List Feat → Bool
   | [] => true
   | [_] => true
   | p :: q :: rest => keyLe (reductionKey c p) (reductionKey c q) && sortedByKey c (q :: rest)
+
+/-- the inputs of `build_area_rows` for a region given by its children: the protoclusters are
+    whatever `get_unique_protoclusters` delivers -/
+def regionIn (c : Ctx) (subs : List Feat) (cands : List Cand) : RegionIn :=
+  { subregions := subs, candidates := cands.map (·.feat),
+    protos := (uniqueProtoclusters c cands).map (·.feat) }
+
+/-- `build_area_rows(region, …)` from the region's children -/
+def buildRegion (c : Ctx) (subs : List Feat) (cands : List Cand) : Option (List Area) :=
+  buildAreaRows c (regionIn c subs cands)
 
 end ASV.Packing
